@@ -93,7 +93,7 @@ class Ctx:
 
 class SubCheck:
     def __init__(self, name, fn, strategy=None, quick=200, thorough=2000, rule="", cases=None,
-                 shards_quick=1, shards_thorough=16, required_labels=(), doc=""):
+                 shards_quick=1, shards_thorough=16, required_labels=(), doc="", shrink_s=None, max_rounds=None):
         self.name = name
         self.fn = fn
         self.strategy = strategy
@@ -105,6 +105,8 @@ class SubCheck:
         self.shards_thorough = shards_thorough
         self.required_labels = tuple(required_labels)
         self.doc = doc
+        self.shrink_s = shrink_s        # seconds of shrinking per violation clause (None = runner default per tier)
+        self.max_rounds = max_rounds    # search rounds behind already-recorded clauses (None = runner default)
 
 
 class GlobalStreams:
